@@ -4,13 +4,18 @@
 (* of up to 3 records, every block sequence up to MaxBlocks over the 7 tags (repeats, both orders). *)
 EXTENDS Container
 
-CONSTANTS MaxParses, MaxBlocks
+CONSTANTS MaxParses, MaxBlocks,
+          DedupChunkHead     \* FALSE = the reader as it is.  TRUE = deliberate deviation (negative control): a reader that
+                             \* "reports an overlapping record once" - drops the first record of a chunk when it equals the
+                             \* record read just before it.  Record VALUES may repeat (the kernel logs equal records).
 
 E(t, p, n) == [tid |-> t, pid |-> p, name |-> n]
 TMaps == {<<>>, <<E(0, 0, "k")>>, <<E(1, 1, "a")>>, <<E(1, 1, "a"), E(1, 2, "b")>>, <<E(1, 1, "a"), E(2, 1, "c")>>, <<E(2, 2, "d")>>}
-RecSeqs == {<<>>, <<1>>, <<1, 2>>}
+RecSeqs == {<<>>, <<1>>, <<1, 2>>, <<1, 1>>, <<2, 1, 1>>}                  \* values, not positions: equal records occur
 Chunkings == {<< <<>> >>, << <<1>> >>, << <<1, 2, 3>> >>, << <<1>>, <<2, 3>> >>, << <<1, 2>>, <<3>> >>,
-              << <<1>>, <<2>>, <<3>> >>, << <<>>, <<1, 2, 3>> >>, << <<1, 2, 3>>, <<>> >>}
+              << <<1>>, <<2>>, <<3>> >>, << <<>>, <<1, 2, 3>> >>, << <<1, 2, 3>>, <<>> >>,
+              \* equal records: next to each other inside a chunk, across a chunk boundary, across an empty chunk
+              << <<1, 1>> >>, << <<1>>, <<1>> >>, << <<1>>, <<>>, <<1, 2>> >>, << <<2, 1>>, <<1, 1>>, <<1>> >>}
 L(cm, p, t, pid) == [cm |-> cm, p |-> p, tid |-> t, pid |-> pid]
 BlockSet == { [tag |-> "codes", txt |-> "x"], [tag |-> "codes", txt |-> "y"],
               [tag |-> "kexts", bins |-> <<1>>], [tag |-> "kexts", bins |-> <<2, 3>>],
@@ -29,11 +34,27 @@ V3Files == {[ver |-> 3, tmap |-> tm, chunks |-> c, blocks |-> b] : tm \in {<<>>,
                                                                    c \in Chunkings, b \in BlockSeqs}
 Files == V2Files \cup V3Files
 
+\* the deviating reader (only its event part differs): previous = the record read last, whatever chunk it was in
+RECURSIVE DedupFlatten(_, _, _)
+DedupFlatten(chunks, i, prev) ==
+  IF i > Len(chunks) THEN <<>>
+  ELSE LET c    == chunks[i]
+           kept == IF c # <<>> /\ c[1] = prev THEN Tail(c) ELSE c
+           last == IF c = <<>> THEN prev ELSE c[Len(c)]
+       IN kept \o DedupFlatten(chunks, i + 1, last)
+Reader(s, f) ==
+  IF DedupChunkHead /\ f.ver = 3
+  THEN LET r == ParseFile(s, f)
+           nev == Len(FlattenChunks(f.chunks, 1))
+           evs == DedupFlatten(f.chunks, 1, 0)
+       IN [r EXCEPT !.yields = [i \in 1..Len(evs) |-> Ev(evs[i])] \o SubSeq(r.yields, nev + 1, Len(r.yields))]
+  ELSE ParseFile(s, f)
+
 VARIABLES st, n, lastf, lasty
 vars == <<st, n, lastf, lasty>>
 Init == st = InitReader /\ n = 0 /\ lastf = [ver |-> 0] /\ lasty = <<>>
 Next == /\ n < MaxParses
-        /\ \E f \in Files : LET r == ParseFile(st, f) IN st' = r.st /\ lasty' = r.yields /\ lastf' = f
+        /\ \E f \in Files : LET r == Reader(st, f) IN st' = r.st /\ lasty' = r.yields /\ lastf' = f
         /\ n' = n + 1
 Spec == Init /\ [][Next]_vars
 
